@@ -377,11 +377,13 @@ history of client writes of the float parameter and of the index, reads, and dri
 `None`, a SECoP error or any other exception) — the float parameter shows `valuedict[index]` after every operation,
 every accepted write of the float parameter handed the driver an index whose value no other label is closer to, and
 every driver-side assignment of a value `x` to the float parameter leaves an index whose value no other label is closer to
-`x` (the comparison with the value of the current index is exact: a value next to it, at any scale, re-selects). -/
+`x` (the comparison with the value of the current index is exact: a value next to it, at any scale, re-selects).  This
+holds with and without the omission of unchanged updates (`cfg.omitUnch`; frappy's default window of 0.1 s makes either
+apply to an update, depending on timing) and whatever `readerror` flags (`e1`, `e2`) the two parameters start with. -/
 theorem floatenum_consistent (cfg : FCfg) (idx0 : Int) (hn : (cfg.vdict.map Prod.fst).Nodup)
-    (h0 : validIdx cfg idx0 = true) (pre : List FOp) (op : FOp) :
-    FloatEnumOk cfg.vdict (frecOf cfg (fexec cfg (finit cfg idx0) pre) op) := by
-  have hinit : FInv cfg (finit cfg idx0) := by
+    (h0 : validIdx cfg idx0 = true) (e1 e2 : Bool) (pre : List FOp) (op : FOp) :
+    FloatEnumOk cfg.vdict (frecOf cfg (fexec cfg (finit cfg idx0 e1 e2) pre) op) := by
+  have hinit : FInv cfg (finit cfg idx0 e1 e2) := by
     unfold validIdx at h0
     unfold FInv ShowsIndexValue finit
     cases h : cfg.vdict.lookup idx0 with
@@ -406,7 +408,7 @@ theorem floatenum_consistent (cfg : FCfg) (idx0 : Int) (hn : (cfg.vdict.map Prod
     | driverAssignFloat y =>
       simp only [frecOf, Option.some.injEq] at ha
       subst ha
-      have hs' : FInv cfg { fexec cfg (finit cfg idx0) pre with evs := [], exc := none } := hs
+      have hs' : FInv cfg { fexec cfg (finit cfg idx0 e1 e2) pre with evs := [], exc := none } := hs
       exact assignFloat_selects cfg hn y _ hs'
     | writeFloat y w => simp [frecOf] at ha
     | writeIdx i w => simp [frecOf] at ha
@@ -457,8 +459,18 @@ example : (frun { vdict := [(0, 1099511627776), (1, 2199023255552), (2, 43980465
                   hi := 4398046511104, hasR := false, hasW := false }
       { idx := 0, value := 1099511627776 } [.driverAssignFloat 1099511627777, .driverAssignFloat 1649267441665]).map
     (fun s => (s.idx, s.value, s.evs)) =
-    [(0, 1099511627776, [.value 1099511627776, .idx 0, .value 1099511627776]),
+    [(0, 1099511627776, [.value 1099511627776, .value 1099511627776]),
      (1, 2199023255552, [.value 2199023255552, .idx 1, .value 2199023255552])] := by decide
+
+/-- with unchanged updates omitted: a driver-side assignment whose closest label is the current index (9 → 4 at index 0)
+corrects the float parameter directly — the pinned code re-assigned the index, that update was omitted, and the float
+parameter kept 9; an assignment of the value already shown and an index update that changes nothing are omitted
+entirely (no update message) -/
+example : (frun { fcfg with omitUnch := true } (finit fcfg 0) [.driverAssignFloat 5, .driverAssignFloat 4, .driverAssignIdx 0,
+      .driverAssignFloat 9, .driverAssignFloat 15, .readIdx (.fail .secop), .driverAssignIdx 2]).map
+    (fun s => (s.idx, s.value, s.evs)) =
+    [(0, 4, [.value 4, .value 4]), (0, 4, []), (0, 4, []), (0, 4, [.value 4, .value 4]),
+     (2, 16, [.value 16, .idx 2, .value 16]), (2, 16, []), (2, 16, [])] := by decide
 
 /-- the monitor rejects a value that does not belong to the index, a write that did not select a closest label, and a
 driver-side assignment after which the float parameter keeps a value next to (but not) the value of the index -/
@@ -516,14 +528,14 @@ theorem labels_wellformed (specs : List LabelSpec) (r : ParsedLabels) (h : parse
 label list, every start index among the enum members and every history, the float parameter shows the value of the
 current index after every operation, writes and driver-side assignments select a closest label. -/
 theorem floatenum_consistent_of_labels (specs : List LabelSpec) (r : ParsedLabels) (h : parseLabels specs = some r)
-    (hasR hasW : Bool) (e : String × Int) (he : e ∈ r.edict) (pre : List FOp) (op : FOp) :
-    FloatEnumOk r.vdict (frecOf { vdict := r.vdict, lo := r.lo, hi := r.hi, hasR := hasR, hasW := hasW }
-      (fexec { vdict := r.vdict, lo := r.lo, hi := r.hi, hasR := hasR, hasW := hasW }
-        (finit { vdict := r.vdict, lo := r.lo, hi := r.hi, hasR := hasR, hasW := hasW } e.2) pre) op) := by
+    (hasR hasW om e1 e2 : Bool) (e : String × Int) (he : e ∈ r.edict) (pre : List FOp) (op : FOp) :
+    FloatEnumOk r.vdict (frecOf { vdict := r.vdict, lo := r.lo, hi := r.hi, hasR := hasR, hasW := hasW, omitUnch := om }
+      (fexec { vdict := r.vdict, lo := r.lo, hi := r.hi, hasR := hasR, hasW := hasW, omitUnch := om }
+        (finit { vdict := r.vdict, lo := r.lo, hi := r.hi, hasR := hasR, hasW := hasW, omitUnch := om } e.2 e1 e2) pre) op) := by
   obtain ⟨h1, h2, _, _, _⟩ := labels_wellformed specs r h
   obtain ⟨v, hv⟩ := h2 e he
-  exact floatenum_consistent { vdict := r.vdict, lo := r.lo, hi := r.hi, hasR := hasR, hasW := hasW } e.2 h1
-    (by simp [validIdx, hv]) pre op
+  exact floatenum_consistent { vdict := r.vdict, lo := r.lo, hi := r.hi, hasR := hasR, hasW := hasW, omitUnch := om } e.2 h1
+    (by simp [validIdx, hv]) e1 e2 pre op
 
 /-- non-vacuity: all forms of a label; index 3 given, `'2'` continues with 4, `(1, '7')` jumps back, `('d', 5)` continues
 with 2; the values of `'2'` and `'7'` come from the label text and are appended to `valuedict` in the order of `edict` -/
